@@ -184,6 +184,13 @@ def _weave_states_in_region(
                 # a for loop necessitates us to introduce a loop-carried variable
                 # that carries the state through the loop
                 elif isinstance(op, scf.ForOp):
+                    # a body that may change accelerator states behind our back (e.g. a call) is not woven through:
+                    # nothing is known at the head of an iteration, nor after the loop
+                    if has_accfg_effects(op):
+                        _weave_states_in_region(op, dict(), rewriter)
+                        state.clear()
+                        continue
+
                     # go through the for loop body find all accelerators that are touched
                     # the order of this tuple is important
                     updated_accelerators = tuple(sorted(find_all_acc_names_in_region(op.body)))
